@@ -147,7 +147,7 @@ func Check(p *Program, opts CheckOpts) *Report {
 	rep := &Report{Engine: "govc", Property: opts.Prop, Tier: opts.Tier, LoadS: p.LoadS}
 	rep.SpecErrors = append(rep.SpecErrors, p.Contr.Errors...)
 	if opts.Workers <= 0 {
-		opts.Workers = 14
+		opts.Workers = 5
 	}
 	if opts.SMTDir == "" {
 		d, _ := os.MkdirTemp("", "govc-smt-")
